@@ -580,3 +580,50 @@ def strptime_dfa(fmt):
     except (KeyError, ValueError) as e:
         raise AnalysisError(f"strptime format {fmt!r} not understood: {e}")
     return rx(pat, ic=True)
+
+
+def rstrip_image(d, chars):
+    """{ x.rstrip(chars) : x in L(d) }: x stripped = a word w not ending in *chars* such that w . chars* meets L(d)"""
+    cs = syms(chars)
+    n = len(d.trans)
+    # states from which an accepting state is reachable by characters of *chars* only
+    rev = {i: set() for i in range(n)}
+    for i, row in enumerate(d.trans):
+        for c in cs:
+            rev[row[c]].add(i)
+    good = set(d.accept)
+    stack = list(good)
+    while stack:
+        s = stack.pop()
+        for p in rev[s]:
+            if p not in good:
+                good.add(p)
+                stack.append(p)
+    widened = DFA(d.trans, good).minimize()
+    return widened - last_in(cs)
+
+
+def lstrip_image(d, chars):
+    """{ x.lstrip(chars) : x in L(d) }"""
+    cs = syms(chars)
+    # after reading any run of *chars* from the start: union of the languages from those states, minus words that
+    # start with a character of *chars*
+    reach = {0}
+    stack = [0]
+    while stack:
+        s = stack.pop()
+        for c in cs:
+            t = d.trans[s][c]
+            if t not in reach:
+                reach.add(t)
+                stack.append(t)
+    outs = []
+    for q in reach:
+        # the DFA started in q: renumber so that q is state 0
+        perm = {q: 0, 0: q}
+        m = lambda i: perm.get(i, i)
+        trans = [None] * len(d.trans)
+        for i, row in enumerate(d.trans):
+            trans[m(i)] = tuple(m(t) for t in row)
+        outs.append(DFA(trans, {m(a) for a in d.accept}).minimize())
+    return union(outs) - first_in(cs)
